@@ -13,7 +13,47 @@ where each construct's jumps go (props/C09.py holds the rules; analysis/jumps.py
              rely on; Function::run applies jumps without the +1 step and returns on ret after dropping the function's block frames.
 These are necessary conditions: breaking any of them changes the output of some core program.
 """
+import jumps
+from absint import Variant, Opaque, Tup, Int
+from core import AnchorMissing
 from props import C09
+
+
+def parameters(F, rep):
+    """the k-th parameter is bound to the k-th argument: FunctionParameters::compile emits `arg k  store <name k>` in order"""
+    FP = "compiler::ast::function_parameters::FunctionParameters"
+    a = F.adt(FP)
+    fc = F.fn("<%s as compiler::ast::Compile>::compile" % FP)
+    if a is None or fc is None:
+        raise AnchorMissing("impl Compile for FunctionParameters")
+    vn = [v["name"] for v in a["variants"]]
+    if "Named" not in vn:
+        raise AnchorMissing("FunctionParameters::Named")
+
+    def name_model(it, p, fid, fn, t, args):
+        v = jumps.deref_all(it, p, args[0])
+        return Opaque("name-of:" + (v.tag if isinstance(v, Opaque) else repr(v))[:40])
+    params = [Opaque("p0"), Opaque("p1"), Opaque("p2")]
+    rows, ex = jumps.words(F, fc, [Variant(FP, vn.index("Named"), "Named", [Tup(params)]), Opaque("state")],
+                           extra_models={"compiler::ast::ident::Ident::name": name_model})
+    ws = sorted(set(C09.ok_words(rows)), key=jumps.show)
+    bad = []
+    for w in ws:
+        if len(w) != 2 * len(params):
+            bad.append("expected %d instructions, found `%s`" % (2 * len(params), jumps.show(w)))
+            continue
+        for k in range(len(params)):
+            ar, stv = w[2 * k], w[2 * k + 1]
+            aa = ar[3] if len(ar) > 3 else ()
+            sa = stv[3] if len(stv) > 3 else ()
+            if not (ar[:2] == ("ins", "arg") and len(aa) == 1 and isinstance(aa[0], Int) and aa[0].v == k):
+                bad.append("parameter %d reads %s" % (k, jumps.show_item(ar)))
+            if not (stv[:2] == ("ins", "store") and len(sa) == 1 and isinstance(sa[0], Opaque) and sa[0].tag == "str:name-of:p%d" % k):
+                bad.append("argument %d is stored as %s" % (k, [getattr(x, "tag", repr(x)) for x in sa]))
+    st = "undecided" if (ex or not ws) else ("violated" if bad else "ok")
+    rep.ob("C01.parameters", "the k-th parameter is bound to the k-th argument (`arg k  store <name k>`, in order)", st,
+           "; ".join(bad) if bad else "emitted: %s" % [jumps.show(w) for w in ws][:1], fc.span, fn=fc.path, key="C01.parameters|emission")
+    rep.floor("C01.parameters words", len(ws), 1)
 
 
 def run(ctx, rep):
@@ -33,3 +73,4 @@ def run(ctx, rep):
         C09.interpreter_loop(F, rep)
     finally:
         C09.P = old
+    parameters(F, rep)
